@@ -1694,7 +1694,8 @@ def regen_constants():
     m = re.search(r"\bloaders\s*=\s*map\s*\[\s*string\s*\]\s*func\s*\(\s*\[\s*\]\s*byte\s*,\s*(?:any|interface\s*\{\s*\})\s*\)\s*error\s*\{(.*?)\}", src, re.S)
     if not m:
         raise RuntimeError("C17 translator: the loaders table was not found in core/conf")
-    loaders = sorted(re.findall(r'"([^"]*)"\s*:\s*(\w+)', m.group(1)))
+    loaders = sorted(set(re.findall(r'"([^"]*)"\s*:\s*(\w+)', m.group(1))
+                         + re.findall(r'\bloaders\s*\[\s*"([^"]*)"\s*\]\s*=\s*(\w+)', src)))     # entries added by assignment (init)
     if not loaders:
         raise RuntimeError("C17 translator: the loaders table is empty")
     m = re.search(r'\bjsonTagKey\s*(?:string\s*)?=\s*"([^"]*)"', src)
